@@ -23,6 +23,7 @@ def one(ctx, A, Pc, tol, kind, meta):
         with core.quiet():
             ph = A.QuantumSignalProcessingPhases(np.array(Pc), signal_operator="Wx", measurement="z", tolerance=tol)
         out = ("ok", [float(x) for x in ph])
+        core.poison(ph)          # the caller owns the returned list; the library must not have kept it
     except Exception as e:  # noqa
         out = (type(e).__name__, str(e)[:60])
     ctx.count("outcome:" + out[0])
@@ -102,6 +103,12 @@ def run(tier, seed):
                 kind = "ends-not-unit"
                 Pc = Pc * float(rng.uniform(0.3, 0.9))
             one(ctx, A, list(Pc), tol, kind, {"style": style, "source_phases": ph})
+            # sibling requests right after: the same polynomial under other tolerances, the loosest first (an answer
+            # may depend on the arguments of the call only, not on what was asked before)
+            if rng.random() < 0.35:
+                for tol2 in (1e-3, 1e-6, 1e-10):
+                    if tol2 != tol:
+                        one(ctx, A, list(Pc), tol2, kind + "/sibling", {"style": style, "source_phases": ph, "asked_before_with_tolerance": tol})
     ctx.assumptions = ["which inputs the floating-point pipeline completes on is explored; every RETURNED result is judged by the proven validator"]
     return ctx.finish(
         rule="complex definite-parity P of degree 1..20: corners <0|U_x|0> of phase lists in 6 styles (generic, real, imaginary, "
